@@ -1,6 +1,7 @@
 package main
 
 import (
+	"github.com/acquirecloud/golibs/timeout"
 	"context"
 	"errors"
 	"fmt"
@@ -599,7 +600,154 @@ func rtHandoverScenario(lease time.Duration, dead bool) rtResult {
 	return res
 }
 
+// rtDeadHolderQueueScenario: the holder dies (none of its renewals reaches the storage); TWO callers of other
+// providers wait for the lock in the storage, the one that arrived first gives up (its context is cancelled) a
+// quarter of a lease later.  The record lapses one lease after it was written and the remaining waiter must then
+// acquire — whatever the storage keeps per key for its waiters, a waiter that leaves must not take the others'
+// wake-up with it.
+func rtDeadHolderQueueScenario(lease time.Duration) rtResult {
+	res := rtResult{name: fmt.Sprintf("dead-holder-queue lease=%v", lease)}
+	st := &rtStore{Storage: inmem.New()}
+	ph := dist.NewKvsLockProvider(st, "/rt/")
+	pb := dist.NewKvsLockProvider(st, "/rt/")
+	pc := dist.NewKvsLockProvider(st, "/rt/")
+	for _, p := range []dist.LockProvider{ph, pb, pc} {
+		dist.VerifSetLease(p, lease)
+	}
+	defer ph.Shutdown()
+	defer pb.Shutdown()
+	defer pc.Shutdown()
+	holder, b, c := ph.NewLocker("l"), pb.NewLocker("l"), pc.NewLocker("l")
+	holder.Lock()
+	t0 := time.Now()
+	atomic.StoreInt32(&st.failAfter, 1)
+	waitFor := func(n int32) {
+		for j := 0; j < 4000 && atomic.LoadInt32(&st.waits) < n; j++ {
+			time.Sleep(50 * time.Microsecond)
+		}
+	}
+	bctx, cancelB := context.WithCancel(context.Background())
+	bDone := make(chan error, 1)
+	go func() { bDone <- b.LockWithCtx(bctx) }()
+	waitFor(1)
+	got := make(chan struct{})
+	go func() { c.Lock(); close(got) }()
+	waitFor(2)
+	time.Sleep(lease / 4)
+	cancelB()
+	select {
+	case err := <-bDone:
+		if err == nil {
+			res.bad = "the caller whose context was cancelled a quarter of a lease after the holder acquired reports success"
+			b.Unlock()
+		}
+	case <-time.After(2 * lease):
+		res.bad = "the cancelled caller did not return within 2 lease periods"
+	}
+	select {
+	case <-got:
+		if d := time.Since(t0); d < lease*9/10 && res.bad == "" {
+			res.bad = fmt.Sprintf("the second waiter acquired %v after the (dead) holder did: before the lease of %v had run out", d.Round(time.Millisecond), lease)
+		}
+		res.info = fmt.Sprintf("second waiter acquired %v after the holder", time.Since(t0).Round(time.Millisecond))
+		c.Unlock()
+	case <-time.After(3 * lease):
+		if res.bad == "" {
+			res.bad = fmt.Sprintf("the holder died; of two waiting callers the first gave up after %v; the other one had not acquired %v after the holder did (lease %v): the record's lapse never reached it", lease/4, time.Since(t0).Round(time.Millisecond), lease)
+		}
+	}
+	atomic.StoreInt32(&st.failAfter, 0)
+	return res
+}
+
+// rtForeignTimerScenario: the process-wide timeout dispatcher already sleeps towards a DISTANT timer of somebody
+// else (an hour ahead) when the lock is acquired, and nothing else touches the dispatcher while the lock is held:
+// the lock's renewal timer (half a lease ahead) must be served all the same — the holder keeps its lock for
+// three lease periods, its record stays, a third party cannot acquire.  (Runs alone: any other Call or Cancel in
+// the process would wake the dispatcher and hide a missed wake-up.)
+func rtForeignTimerScenario(lease time.Duration) rtResult {
+	res := rtResult{name: fmt.Sprintf("foreign-timer lease=%v", lease)}
+	// (leftover renewal chains of earlier scenarios die out within a lease or so: wait for a quiet dispatcher, then
+	// let its pool wind down to nothing — idle workers of earlier scenarios look at the heap every idle period and
+	// would serve the renewal timer by accident; their 30 s sleeps are cut short by pokes with a tiny idle period)
+	for i := 0; i < 300 && timeout.VerifHeapLen() > 0; i++ {
+		time.Sleep(10 * time.Millisecond)
+	}
+	oldIdle := timeout.VerifSetIdle(5 * time.Millisecond)
+	for i := 0; i < 600 && timeout.VerifWatchers() > 0; i++ {
+		if i%5 == 0 {
+			timeout.Call(func() {}, 0)
+		}
+		time.Sleep(4 * time.Millisecond)
+	}
+	timeout.VerifSetIdle(oldIdle)
+	left := timeout.VerifHeapLen() + 100*timeout.VerifWatchers()
+	far := timeout.Call(func() {}, time.Hour)
+	defer far.Cancel()
+	time.Sleep(30 * time.Millisecond) // the dispatcher parks towards the distant timer
+	st := &rtStore{Storage: inmem.New()}
+	ph := dist.NewKvsLockProvider(st, "/rt/")
+	pt := dist.NewKvsLockProvider(st, "/rt/")
+	dist.VerifSetLease(ph, lease)
+	dist.VerifSetLease(pt, lease)
+	defer ph.Shutdown()
+	defer pt.Shutdown()
+	h := ph.NewLocker("l")
+	third := pt.NewLocker("l").(tryLocker)
+	h.Lock()
+	t0 := time.Now()
+	bg := context.Background()
+	for time.Since(t0) < 3*lease {
+		if third.TryLock(bg) {
+			res.bad = fmt.Sprintf("a contender acquired the lock %v after the holder did, while the holder (alive, storage answering) still held it: with a distant timer of somebody else pending in the process no renewal was made (renewal calls=%d)", time.Since(t0).Round(time.Millisecond), atomic.LoadInt32(&st.casCalls))
+			third.Unlock()
+			break
+		}
+		if it, err := st.ListKeys(bg, "*"); err == nil && !it.HasNext() {
+			res.bad = fmt.Sprintf("the record of the held lock is gone %v after it was acquired (lease %v): with a distant timer of somebody else pending in the process no renewal was made (renewal calls=%d)", time.Since(t0).Round(time.Millisecond), lease, atomic.LoadInt32(&st.casCalls))
+			break
+		}
+		time.Sleep(lease / 10) // (only reads of the storage: nothing here touches the dispatcher)
+	}
+	res.info = fmt.Sprintf("renewals=%d ok=%d (pending timers + 100 x workers left over from earlier scenarios at the start: %d)", atomic.LoadInt32(&st.casCalls), atomic.LoadInt32(&st.casOK), left)
+	h.Unlock()
+	return res
+}
+
+// rtGuard runs a real-time scenario under the call watchdog: a scenario that wedges (a Lock / Unlock that never
+// returns) ends the run with `mon HANG` instead of hanging the check.
+func rtGuard(ctx *Ctx, f func(time.Duration) rtResult) func(time.Duration) rtResult {
+	return func(l time.Duration) rtResult {
+		ctx.R.Enter()
+		defer ctx.R.Leave()
+		return f(l)
+	}
+}
+
 func runLockRT(ctx *Ctx) {
+	// FIRST, while the process-wide dispatcher has never run: a distant timer of somebody else is pending when the lock
+	// is acquired (later scenarios leave workers and timers behind that would serve the renewal by accident)
+	{
+		rf := rtGuard(ctx, rtForeignTimerScenario)(300 * time.Millisecond)
+		if rf.bad != "" {
+			if r2 := rtGuard(ctx, rtForeignTimerScenario)(600 * time.Millisecond); r2.bad == "" {
+				ctx.R.Stats.Notes = append(ctx.R.Stats.Notes, "timing flake discarded: "+rf.name+": "+rf.bad)
+				rf.bad = ""
+			} else {
+				rf.bad = r2.bad
+			}
+		}
+		ctx.R.Case("realtime")
+		ctx.R.Nontrivial("foreign-timer")
+		ctx.R.Op("scenario foreign-timer-1", "ok")
+		ctx.R.Comment(rf.name + ": " + rf.info)
+		if rf.bad != "" {
+			ctx.R.Quiet("mon C05-lease-kept-while-held", rf.name+": "+rf.bad)
+			if strings.Contains(rf.bad, "acquired the lock") {
+				ctx.R.Quiet("mon C01-at-most-one-holder", rf.name+": "+rf.bad)
+			}
+		}
+	}
 	lease := 300 * time.Millisecond
 	type sc struct {
 		kind string
@@ -619,7 +767,7 @@ func runLockRT(ctx *Ctx) {
 			wg.Add(1)
 			go func(i int, s sc) {
 				defer wg.Done()
-				out[i] = rtScenario(s.kind, s.k, l)
+				out[i] = rtGuard(ctx, func(l time.Duration) rtResult { return rtScenario(s.kind, s.k, l) })(l)
 			}(i, s)
 		}
 		wg.Wait()
@@ -650,10 +798,27 @@ func runLockRT(ctx *Ctx) {
 			ctx.R.Quiet("mon C05-"+map[string]string{"steady": "lease-kept-while-held", "transient": "lease-kept-after-transient-error", "death": "dead-holder-released", "unlock-race": "renewal-dies-after-unlock"}[scs[i].kind], r.name+": "+r.bad)
 		}
 	}
+	rq := rtGuard(ctx, rtDeadHolderQueueScenario)(lease)
+	if rq.bad != "" {
+		if r2 := rtGuard(ctx, rtDeadHolderQueueScenario)(2 * lease); r2.bad == "" {
+			ctx.R.Stats.Notes = append(ctx.R.Stats.Notes, "timing flake discarded: "+rq.name+": "+rq.bad)
+			rq.bad = ""
+		} else {
+			rq.bad = r2.bad
+		}
+	}
+	ctx.R.Case("realtime")
+	ctx.R.Nontrivial("dead-holder-queue")
+	ctx.R.Op("scenario dead-holder-queue-1", "ok")
+	ctx.R.Comment(rq.name + ": " + rq.info)
+	if rq.bad != "" {
+		ctx.R.Quiet("mon C05-dead-holder-released", rq.name+": "+rq.bad)
+		ctx.R.Quiet("mon C04-everyone-served", rq.name+": "+rq.bad)
+	}
 	for _, dead := range []bool{false, true} {
-		rh := rtHandoverScenario(lease, dead)
+		rh := rtGuard(ctx, func(l time.Duration) rtResult { return rtHandoverScenario(l, dead) })(lease)
 		if rh.bad != "" {
-			if r2 := rtHandoverScenario(2*lease, dead); r2.bad == "" {
+			if r2 := rtGuard(ctx, func(l time.Duration) rtResult { return rtHandoverScenario(l, dead) })(2 * lease); r2.bad == "" {
 				ctx.R.Stats.Notes = append(ctx.R.Stats.Notes, "timing flake discarded: "+rh.name+": "+rh.bad)
 				rh.bad = ""
 			} else {
@@ -672,18 +837,18 @@ func runLockRT(ctx *Ctx) {
 		}
 	}
 	// Unlock while a renewal is in flight + transient failure of that call + a new holder
-	ra := rtAdoptScenario(lease)
+	ra := rtGuard(ctx, rtAdoptScenario)(lease)
 	if ra.bad != "" {
 		// not timing dependent in the bad direction, but confirm once with a longer lease like the others
-		if rb := rtAdoptScenario(2 * lease); rb.bad == "" {
+		if rb := rtGuard(ctx, rtAdoptScenario)(2 * lease); rb.bad == "" {
 			ctx.R.Stats.Notes = append(ctx.R.Stats.Notes, "timing flake discarded: "+ra.name+": "+ra.bad)
 			ra.bad = ""
 		}
 	}
 	// two unrelated locks in one process: an Unlock overlapping a renewal in flight must not touch the other lock's lease
-	rx := rtCrossScenario(lease)
+	rx := rtGuard(ctx, rtCrossScenario)(lease)
 	if rx.bad != "" {
-		if r2 := rtCrossScenario(2 * lease); r2.bad == "" {
+		if r2 := rtGuard(ctx, rtCrossScenario)(2 * lease); r2.bad == "" {
 			ctx.R.Stats.Notes = append(ctx.R.Stats.Notes, "timing flake discarded: "+rx.name+": "+rx.bad)
 			rx.bad = ""
 		} else {
@@ -704,9 +869,9 @@ func runLockRT(ctx *Ctx) {
 		name string
 		f    func(time.Duration) rtResult
 	}{{"transients", rtTransientsScenario}, {"burst", rtBurstScenario}, {"shared", rtSharedScenario}} {
-		rr := sc.f(lease)
+		rr := rtGuard(ctx, sc.f)(lease)
 		if rr.bad != "" {
-			if r2 := sc.f(2 * lease); r2.bad == "" {
+			if r2 := rtGuard(ctx, sc.f)(2 * lease); r2.bad == "" {
 				ctx.R.Stats.Notes = append(ctx.R.Stats.Notes, "timing flake discarded: "+rr.name+": "+rr.bad)
 				rr.bad = ""
 			} else {
@@ -734,9 +899,9 @@ func runLockRT(ctx *Ctx) {
 		ctx.R.Quiet("mon C04-no-stuck-goroutine", rc.name+": "+rc.bad)
 	}
 	// Shutdown of the holder's provider while the lock is held
-	rs := rtShutdownHeldScenario(lease)
+	rs := rtGuard(ctx, rtShutdownHeldScenario)(lease)
 	if rs.bad != "" {
-		if r2 := rtShutdownHeldScenario(2 * lease); r2.bad == "" {
+		if r2 := rtGuard(ctx, rtShutdownHeldScenario)(2 * lease); r2.bad == "" {
 			ctx.R.Stats.Notes = append(ctx.R.Stats.Notes, "timing flake discarded: "+rs.name+": "+rs.bad)
 			rs.bad = ""
 		} else {
@@ -754,9 +919,9 @@ func runLockRT(ctx *Ctx) {
 		}
 	}
 	// Unlock + Lock on the same Locker while the answer of an applied renewal is on the way
-	rr := rtRelockScenario(lease)
+	rr := rtGuard(ctx, rtRelockScenario)(lease)
 	if rr.bad != "" {
-		if r2 := rtRelockScenario(2 * lease); r2.bad == "" {
+		if r2 := rtGuard(ctx, rtRelockScenario)(2 * lease); r2.bad == "" {
 			ctx.R.Stats.Notes = append(ctx.R.Stats.Notes, "timing flake discarded: "+rr.name+": "+rr.bad)
 			rr.bad = ""
 		} else {
